@@ -376,6 +376,9 @@ def copyRef (mode : CopyMode) (st : CopySt) (id : Nat) : Nat × CopySt :=
   | .fresh => (st.next, ⟨st.memo, st.next + 1⟩)
   | _ => (id, st)
 
+/-- a named Boolean fact of a generated table (`false` when absent) -/
+def factOf (t : List (String × Bool)) (k : String) : Bool := (t.lookup k).getD false
+
 /-- training objective of an SGPR model whose kernel reads the noise `noiseK` for the added loss term while the marginal
 likelihood term `logN` was computed with the model's own likelihood -/
 def sgprObjective [Field α] {n : Nat} (logN : α) (kdiag qdiag noiseK : Fin n → α) : α :=
